@@ -170,7 +170,7 @@ def check_patch_ids(patch_ids: ArrayLike) -> None:
 
     min_id = 0
     max_id = np.iinfo(PATCH_ID_DTYPE).max
-    if patch_ids.min() < min_id or patch_ids.max() > max_id:
+    if not (patch_ids.min() >= min_id and patch_ids.max() <= max_id):  # false for NaN
         raise ValueError(f"'patch_ids' must be in range [{min_id}, {max_id}]")
 
 
